@@ -53,6 +53,14 @@ def gen(rng, ctx):
         if not isout:
             parent["edges"].append([w, rng.choice(multi)])
         holes.append(w)
+    if rng.random() < 0.06:
+        # an ordinary net with a dotted (flattened-hierarchy) name: not a pin of any instance, strip_blackboxes leaves it alone
+        plain_gates = [n for n, t, _ in parent["nodes"] if t in G.ALL_GATES and not n.startswith("h")]
+        if plain_gates:
+            try:
+                parent = G.cd_rename(parent, {rng.choice(plain_gates): rng.choice(["alu.sum", "top.n1", "sc0x.D"])})
+            except ValueError:
+                pass
     if rng.random() < 0.2:
         # tie-offs of every kind (a connection map must never land a child output on one of them)
         for j in range(rng.randint(1, 2)):
